@@ -85,6 +85,9 @@ def replay_maf(rep: Report, cases: list, rng: random.Random, budget: int):
         for c in cases:
             strata.setdefault((c["cfg"]["dim"], c["cfg"]["cond"], c["cfg"]["depth"]), []).append(c)
         picked = [rng.choice(v) for _k, v in sorted(strata.items())][:budget]
+        # widths at and just above the dimension: where a grouping of hidden units by rank can leave the top rank empty
+        picked += [c for c in cases if c not in picked and c["cfg"]["dim"] >= 4 and c["cfg"]["dim"] <= c["cfg"]["width"] <= c["cfg"]["dim"] + 2
+                   and c["cfg"]["depth"] == 1 and c["cfg"].get("npar", 1) == 1]
         rest = [c for c in cases if c not in picked]
         picked += rng.sample(rest, max(0, min(len(rest), budget - len(picked))))
     for ci, c in enumerate(picked):
